@@ -28,6 +28,56 @@ class SimAbort(Exception):
     """progress bound exceeded (I3) or scheduler inconsistency."""
 
 
+class SimCrash(BaseException):
+    """the simulated machine dies at a file write (fault kind crash_then_reestimate).  BaseException: quara's own
+    `except Exception` handlers must not be able to swallow a power cut."""
+
+
+class DiskSeam:
+    """stands in for the builtin `open` inside the two quara simulation modules: counts writes into the output directory
+    and, when scripted, kills the run at the k-th one - either before the file exists (lost write) or after a prefix of it
+    reached the disk (torn write)."""
+
+    def __init__(self, out_dir, crash_at=None, torn=None):
+        import builtins
+
+        self._open = builtins.open
+        self.out_dir = str(out_dir)
+        self.crash_at = crash_at
+        self.torn = torn
+        self.writes = 0
+        self.crashed_on = None
+
+    def __call__(self, file, mode="r", *a, **kw):
+        path = str(file)
+        if any(c in mode for c in "wax+") and path.startswith(self.out_dir):
+            self.writes += 1
+            if self.crash_at is not None and self.writes == self.crash_at:
+                self.crashed_on = os.path.relpath(path, self.out_dir)
+                if self.torn is None:
+                    raise SimCrash(f"crash before write {self.writes} ({self.crashed_on})")
+                return _TornFile(self._open(file, mode, *a, **kw), path, self.torn, self.writes)
+        return self._open(file, mode, *a, **kw)
+
+
+class _TornFile:
+    def __init__(self, f, path, frac, n):
+        self._f, self._path, self._frac, self._n = f, path, frac, n
+
+    def __getattr__(self, name):
+        return getattr(self._f, name)
+
+    def __enter__(self):
+        return self
+
+    def __exit__(self, *exc):
+        self._f.close()
+        size = os.path.getsize(self._path)
+        with open(self._path, "r+b") as g:
+            g.truncate(int(size * self._frac))
+        raise SimCrash(f"crash during write {self._n} ({self._path}): {int(size * self._frac)} of {size} bytes reached the disk")
+
+
 # ---------------------------------------------------------------------------------------------
 # process globals
 # ---------------------------------------------------------------------------------------------
